@@ -24,7 +24,7 @@ ASSUMPTIONS = [
 ]
 
 ORACLE = {"status", "finite", "len", "l1", "nonneg", "sum", "prop", "stop"}
-CORR = {"cert", "propexact", "fixpt", "sweep", "nd"}
+CORR = {"cert", "propexact", "fixpt", "sweep", "nd", "asyncbound"}
 
 
 def nontrivial(case):
